@@ -52,6 +52,8 @@ pub fn instr_read_var(
     let value = runtime_data
         .global_vars
         .get(varid as usize)
+        // a variable with a smaller id than one that was set is still unset
+        .and_then(|value| value.as_ref())
         .ok_or_else(|| {
             ExecutionErrorPayload::VarNotFound(
                 program
@@ -78,9 +80,9 @@ pub fn instr_set_var(
     let scalar = runtime_data.value_stack.pop();
     let varid = varname.0 as usize;
     if runtime_data.global_vars.len() <= varid {
-        runtime_data.global_vars.resize(varid + 1, Value::Nil);
+        runtime_data.global_vars.resize(varid + 1, None);
     }
-    runtime_data.global_vars[varid] = scalar;
+    runtime_data.global_vars[varid] = Some(scalar);
     Ok(())
 }
 
